@@ -373,6 +373,14 @@ def _extra(prop, focus, flag, q, t, sn):
 
 for _p, _f in (('C02', 'cooldown'), ('C03', 'restore'), ('C04', 'autodisc'), ('C11', 'dry'), ('C12', 'multi')):
     _extra(_p, _f, '-realctor', 32, 320, 64)
+PROPS['C10']['streams']['quick'].append(('taintops', ['-n', 3000]))
+PROPS['C10']['streams']['thorough'].append(('taintops', ['-n', 60000]))
+PROPS['C10']['streams']['search'].append(('taintops', ['-n', 10000]))
+PROPS['C10']['aspects'] = PROPS['C10']['aspects'] + ['journal', 'ok']
+PROPS['C18']['aspects'] = PROPS['C18']['aspects'] + ['hist:resize']
+PROPS['C18']['streams']['quick'].append(('hist', ['-n', 250, '-scans', 10, '-focus', 'up']))
+PROPS['C18']['streams']['thorough'].append(('hist', ['-n', 8000, '-scans', 12, '-focus', 'up']))
+PROPS['C18']['streams']['search'].append(('hist', ['-n', 1000, '-scans', 12, '-focus', 'up']))
 for _p, _f in (('C05', 'up'), ('C01', 'churn'), ('C09', 'churn'), ('C10', 'churn'), ('C03', 'up')):
     _extra(_p, _f, '-slow', 16, 160, 32)
 
